@@ -106,7 +106,7 @@ def observe(d, name, programs, builds=BUILDS, jobs=8):
     return rows, lib, recs
 
 
-def judge(d, name, rows, lib, budget, workers=8, timeout=2400, coverage=False):
+def judge(d, name, rows, lib, budget, workers=8, timeout=2400, profile=False):
     """TLC on SemTrace.tla; returns ({id: verdict record}, TlcResult)"""
     tr = os.path.join(d, f"{name}-trace.ndjson")
     lp = os.path.join(d, f"{name}-lib.json")
@@ -114,12 +114,218 @@ def judge(d, name, rows, lib, budget, workers=8, timeout=2400, coverage=False):
     with open(lp, "w") as f:
         json.dump(lib, f)
     kn = ",".join(sorted(k.get("region", "") for k in known() if k.get("region")))
-    res = tlc("SemTrace", "SemTrace.cfg", env={"TRACE": tr, "LIB": lp, "BUDGET": budget, "KNOWN": kn},
-              workers=workers, timeout=timeout, tag=f"c01-{name}", extra=["-continue"], coverage=coverage, xmx="12g")
+    res = tlc("SemTrace", "SemTrace.cfg", env={"TRACE": tr, "LIB": lp, "BUDGET": budget, "KNOWN": kn, "PROFILE": "1" if profile else "0"},
+              workers=workers, timeout=timeout, tag=f"c01-{name}", extra=["-continue"], xmx="12g")
     verdicts = {}
     for v in behaviours_from(res, "RESULT"):
         verdicts[v["id"]] = v
     return verdicts, res
+
+
+REQUIRED_RULES = {
+    # expression forms
+    "I", "B", "S", "Unit", "V", "T", "F", "M", "U", "Call", "Bin", "If", "IfLet", "Match", "Lam", "Blk",
+    # calls, references, dispatch
+    "call:builtin", "call:closure", "call:method", "call:new", "call:static", "call:variant",
+    "ref:method", "ref:new", "ref:static", "ref:variant", "dispatch:o", "dispatch:e",
+    # operators
+    "op:!", "op:-", "op:AND", "op:OR", "op:CONCAT", "op:PLUS", "op:MINUS", "op:MUL", "op:DIV", "op:MOD",
+    "op:LT", "op:LE", "op:GT", "op:GE", "op:EQ", "op:NE",
+    # patterns
+    "PI", "PW", "PT", "PO", "PV", "POr",
+    # builtins
+    "Process.println", "Process.panic", "Str.fromInt", "Str.toInt", "Vec.empty", "Vec.of", "Vec.withCapacity",
+    "Vec.length", "Vec.push", "Vec.pop", "Vec.get", "Vec.set", "Vec.reserve", "Vec.capacity", "Vec.eq",
+    # endings
+    "end:ok", "end:panic", "end:vecbounds", "end:impl",
+}
+
+
+class Tally:
+    def __init__(self):
+        self.programs = 0          # offered
+        self.accepted = 0
+        self.judged = 0            # verdict ok / violation / known: runs compared with the specified run
+        self.ok = 0
+        self.runs_compared = 0
+        self.nodes = 0
+        self.excluded = {}
+        self.tool = {}
+        self.known = {}
+        self.violations = []       # (row, verdict, rec)
+        self.ts_differs = 0
+        self.by_source = {}
+        self.samples = []
+        self.tlc_wall = 0.0
+        self.tlc_states = 0
+        self.rules = set()
+
+    def add(self, source, rows, recs, verdicts, res):
+        self.tlc_wall += res.wall
+        self.tlc_states += res.distinct
+        src = self.by_source.setdefault(source, {"programs": 0, "ok": 0, "excluded": 0, "tool": 0, "violation": 0, "known": 0, "skipped": 0, "nodes": 0})
+        by_id = {r["id"]: r for r in recs}
+        for row in rows:
+            v = verdicts[row["id"]]
+            self.programs += 1
+            src["programs"] += 1
+            src["nodes"] += v["n"]
+            self.nodes += v["n"]
+            self.rules |= set(v.get("seen", []))
+            kind = v["verdict"]
+            src[kind] = src.get(kind, 0) + 1
+            if kind != "skipped":
+                self.accepted += 1
+            nruns = sum(1 for b in row["builds"].values() if "wasm" in b)
+            if kind == "ok":
+                self.ok += 1
+                self.judged += 1
+                self.runs_compared += nruns
+                if v["why"] == "ts-differs":
+                    self.ts_differs += 1
+                if len(self.samples) < 4 and (self.judged % 7 == 1):
+                    w = next((b["wasm"] for b in row["builds"].values() if "wasm" in b), None)
+                    self.samples.append({"origin": row["origin"], "nodes": v["n"], "lines": len(w["out"]) if w else 0,
+                                         "first_lines": (w["out"][:3] if w else []), "end": w["end"] if w else None})
+            elif kind == "excluded":
+                self.excluded[v["why"]] = self.excluded.get(v["why"], 0) + 1
+            elif kind == "tool":
+                self.tool[v["why"].split(":")[0]] = self.tool.get(v["why"].split(":")[0], 0) + 1
+                if not v["why"].startswith("no-artefact"):
+                    log(f"[c01] evaluator could not decide {row['origin']}: {v['why']}")
+            elif kind == "known":
+                self.judged += 1
+                self.runs_compared += nruns
+                self.known.setdefault(v["why"], []).append(row["origin"])
+            elif kind == "violation":
+                self.judged += 1
+                self.runs_compared += nruns
+                self.violations.append((row, v, by_id[row["id"]]))
+
+
+def check_group(tally, d, source, name, programs, budget, builds=BUILDS, profile=False, workers=8):
+    if not programs:
+        return
+    t = time.time()
+    rows, lib, recs = observe(d, name, programs, builds)
+    t1 = time.time()
+    verdicts, res = judge(d, name, rows, lib, budget, workers=workers, profile=profile)
+    if len(verdicts) != len(rows):
+        log(res.out[-4000:])
+        tool_failure(f"SemTrace.tla judged {len(verdicts)} of {len(rows)} programs of group {name}: {res.error or res.violated}")
+    tally.add(source, rows, recs, verdicts, res)
+    log(f"[c01] {name}: {len(rows)} programs, observe {t1 - t:.0f}s, TLC {res.wall:.0f}s, "
+        f"{sum(v['n'] for v in verdicts.values())} nodes")
+
+
+def report(tally):
+    """prints VIOLATION / KNOWN-FINDING lines; returns number of violations"""
+    kf = {k.get("region"): k for k in known()}
+    for region, origins in tally.known.items():
+        k = kf.get(region, {})
+        report_known(PID, f"{k.get('what', region)} ({len(origins)} program(s), e.g. {origins[0]})")
+    n = 0
+    for row, v, rec in tally.violations[:8]:
+        det = v.get("detail", {})
+        bad = det.get("build")
+        obs = rec.get("builds", {}).get(bad, {}).get("wasm")
+        case = {"source": row["origin"], "program": {k: rec[k] for k in ("origin", "entry", "sources") if k in rec},
+                "with_std": rec.get("with_std", True)}
+        path = save_replay(PID, "program", case,
+                           {"decided_by": "SemTrace.tla invariant C01 (Semantics!Run)", "why": v["why"], "first_differing_line": det.get("line"),
+                            "specified_lines": det.get("specLines"), "specified_end": det.get("specEnd"),
+                            "typescript_back_end_agrees_with_specification": det.get("ts")},
+                           {"build": bad, "wasm": obs})
+        report_violation(PID, path)
+        n += 1
+    return len(tally.violations)
+
+
+def witness_known(tally, d):
+    """the witnesses of open known findings must still fail as recorded (else the entry is stale)"""
+    progs = []
+    for k in known():
+        w = k.get("witness")
+        if w and os.path.exists(os.path.join(VERIF, w)):
+            p = program_from_path(os.path.join(VERIF, w))
+            p["origin"] = f"witness:{k.get('region')}"
+            progs.append(p)
+    if progs:
+        check_group(tally, d, "known-finding witnesses", "witness", progs, 300000)
+
+
+def run(tier):
+    t0 = time.time()
+    d = outdir(PID)
+    build_harness()
+    tally = Tally()
+    quick = tier == "quick"
+    # 1. the hand-written feature corpus (every rule of the evaluator must be exercised here)
+    corpus = corpus_programs()
+    if len(corpus) < 20:
+        tool_failure(f"feature corpus missing ({len(corpus)} programs in {CORPUS})")
+    check_group(tally, d, "corpus", "corpus", corpus, 3_000_000, profile=True)
+    missing = sorted(REQUIRED_RULES - tally.rules)
+    if missing:
+        tool_failure(f"vacuity: evaluation rules never exercised by the corpus: {missing}")
+    rules = sorted(tally.rules)
+    witness_known(tally, d)
+    # 2. the repository's test programs (one wrapper per test class; AllTests itself in the thorough tier)
+    repo = pc.repo_programs()
+    check_group(tally, d, "repo", "repo", repo[1:] if quick else repo, 2_000_000 if quick else 30_000_000)
+    # 3. generated programs
+    gen_note = None
+    n_gen = 150 if quick else 2500
+    profiles = ["mixed", "loops", "enums", "closures", "strings"]
+    if have_generator():
+        per = n_gen // len(profiles)
+        for prof in profiles:
+            progs = pc.generated_programs(d, per, SEED, prof)
+            for i in range(0, len(progs), 400):
+                check_group(tally, d, f"gen:{prof}", f"gen-{prof}-{i}", progs[i:i + 400], 2_000_000)
+    else:
+        gen_note = "vh gen-programs is not available: no generated programs in this run"
+        log("[c01] " + gen_note)
+    fails = report(tally)
+    repo_src = tally.by_source.get("repo", {})
+    evaluator_undecided = sum(v for k, v in tally.tool.items() if k != "no-artefact")
+    coverage = {
+        "programs": tally.judged, "disagreements_checked": tally.runs_compared, "samples": tally.samples,
+        "programs_offered": tally.programs, "accepted": tally.accepted,
+        "evaluated_nodes": tally.nodes, "excluded_by_reason": tally.excluded,
+        "unsupported_or_stuck": evaluator_undecided, "no_artefact_compiler_crashed": tally.tool.get("no-artefact", 0),
+        "known_finding_programs": {k: len(v) for k, v in tally.known.items()},
+        "typescript_run_differs_from_specification": tally.ts_differs,
+        "by_source": tally.by_source,
+        "repo_programs_finished_by_evaluator": repo_src.get("ok", 0) + repo_src.get("violation", 0) + repo_src.get("known", 0),
+        "repo_programs_total": repo_src.get("programs", 0),
+        "rules_exercised_by_corpus": rules,
+        "tlc_states": tally.tlc_states, "tlc_wall_s": round(tally.tlc_wall, 1),
+        "nodes_per_second_all_workers": int(tally.nodes / tally.tlc_wall) if tally.tlc_wall else 0,
+        "generator": gen_note or "vh gen-programs profiles " + ",".join(profiles),
+    }
+    write_evidence(PID, tier, "translation_validation", coverage,
+                   ["spec/Semantics.tla is the reading of spec.md the verdicts rest on; it was validated by three-way agreement (specified run = WebAssembly run = TypeScript run) on the corpus and the repository's tests",
+                    "wasm_interp (own WasmGC interpreter over the emitted bytes) observes the module faithfully; loader.js is transcribed, not executed",
+                    "runs whose specified status is implementation-defined (overflow, division by zero, toInt outside -?[0-9]+, Vec.capacity, == on separately allocated equal class values, call depth > 10000, node budget) are excluded and counted",
+                    "programs stay out of recorded regions: non-ASCII text, ints beyond 31 bits in Vec, \"\".toInt()",
+                    "a program whose compilation crashes has no WebAssembly run to judge (counted as no_artefact; C03's subject)"],
+                   time.time() - t0, fails)
+    if evaluator_undecided > max(2, tally.accepted // 50):
+        tool_failure(f"the evaluator could not decide {evaluator_undecided} programs (stuck / unsupported)")
+    return 1 if fails else 0
+
+
+def replay(path):
+    case = json.load(open(path))
+    d = outdir(PID)
+    p = dict(case["case"]["program"])
+    p["with_std"] = case["case"].get("with_std", True)
+    tally = Tally()
+    check_group(tally, d, "replay", "replay", [p], 30_000_000, workers=1)
+    for source, s in tally.by_source.items():
+        log(f"[c01] replay: {s}")
+    return 1 if report(tally) else 0
 
 
 def main_dev():
